@@ -394,6 +394,17 @@ OnDone(s, e) ==
                   IN Flag(s1, {"C02"} \cup UNION {kp(d) : d \in diff}, "the keep-going run does not report exactly the independent faults of the payload"))
        ELSE s1
 
+\* A keep-going run that was already charged with a deviation still owes one report per independent fault of the payload: the
+\* missing fields, unknown keys, unknown values and wrong lengths that it never reported are charged to the properties that promise
+\* them (the machine is no longer followed, so only what the payload alone determines is judged: no user-function failures)
+DoneDegraded(s) ==
+    IF ~(s.cur.allc /\ s.cur.etype = "rec" /\ ~s.cur.deep) THEN s
+    ELSE LET faults == Faults(s.cur.ty, s.cur.val, <<>>, s.cur.pk, {})
+             lost == {faults[j] : j \in {k \in 1..Len(faults) : faults[k].k \in {"missing", "unknownkey", "unknownvalue", "badlen"}
+                                                                 /\ Count(s.reps, faults[k]) < Count(faults, faults[k])}}
+             kp(d) == CASE d.k = "missing" -> {"C08"} [] d.k = "unknownkey" -> {"C09"} [] d.k = "unknownvalue" -> {"C10"} [] OTHER -> {"C06"}
+         IN IF lost = {} THEN s ELSE SoftFlag(s, UNION {kp(d) : d \in lost}, "a keep-going run never reports a fault of the payload that nothing hides")
+
 \* What is still recorded once a run has been charged with a deviation: the reports it makes (for the comparisons
 \* between runs of the same input, which do not depend on the specification) - nothing else is judged.
 Degraded(s, e) ==
@@ -444,7 +455,7 @@ Step(s, e) ==
       [] e.e = "panic" -> Flag(s, {"C12"} \cup (IF s.cur.extra THEN {"C09"} ELSE {}) \cup (IF s.cur.perm THEN {"C15"} ELSE {}),
                                "deserialize panicked")      \* a panic is a fact, whatever happened before in the run
       [] s.cur.deep -> s                                                 \* deep nests are not spelled out: only totality is judged
-      [] e.e = "done"  -> GroupDone(IF s.runbad THEN s ELSE OnDone(s, e), e)
+      [] e.e = "done"  -> GroupDone(IF s.runbad THEN DoneDegraded(s) ELSE OnDone(s, e), e)
       [] s.cur.etype # "rec" -> s
       [] OTHER ->
             LET p == PrefixStep(s, e) IN
